@@ -348,3 +348,9 @@ package meta
 //@   opt elems_nonnil=regexp/syntax.Regexp
 //@   ensures result && (re.Op == 14 || re.Op == 15 || re.Op == 17) ==> len(re.Sub) == 1 && re.Sub[0].Op == 4 && len(re.Sub[0].Rune) == 2 && re.Sub[0].Rune[0] == 48 && re.Sub[0].Rune[1] == 57
 //@   ensures result ==> re != nil && (re.Op == 14 || re.Op == 15 || re.Op == 17 || re.Op == 18 || re.Op == 13)
+
+// ---- C12: only validated configurations reach the engines: the ranges later code relies on ----
+//@ spec func validCfg(c Config) bool = 10 <= c.MaxRecursionDepth && c.MaxRecursionDepth <= 1000 && (c.EnablePrefilter ==> 1 <= c.MinLiteralLen && c.MinLiteralLen <= 64 && 1 <= c.MaxLiterals && c.MaxLiterals <= 1000) && (c.EnableDFA ==> 1 <= c.MaxDFAStates && c.MaxDFAStates <= 1000000 && 10 <= c.DeterminizationLimit && c.DeterminizationLimit <= 100000)
+//@ func (Config).Validate
+//@   props C12 C07
+//@   ensures result == nil <==> validCfg(c)
